@@ -9,6 +9,7 @@ import SqlLineage.IO.Graph
 import SqlLineage.IO.Sql
 import SqlLineage.IO.PathSec
 import SqlLineage.IO.Shape
+import SqlLineage.IO.Export
 import SqlLineage.IO.Names
 import SqlLineage.IO.Split
 import SqlLineage.IO.Provider
@@ -30,6 +31,9 @@ def handlers : List (String × (Json → Except String Json)) := [
   ("path", SqlLineage.IO.PathSec.handleOne),
   ("pathbatch", SqlLineage.IO.PathSec.handleBatch),
   ("pathlib", SqlLineage.IO.PathSec.handlePathlib),
+  ("exportsql", SqlLineage.IO.Export.handleExportSql),
+  ("exportgraph", SqlLineage.IO.Export.handleExportGraph),
+  ("exportfull", SqlLineage.IO.Export.handleExportFull),
   ("ident", SqlLineage.IO.Names.handleIdent),
   ("namesBatch", SqlLineage.IO.Names.handleBatch),
   ("namesOf", SqlLineage.IO.Names.handleOf),
